@@ -8,6 +8,7 @@ metrics.py and are tied to the code on every run by tools/harness/c08.py.
 import SkNet.Lemmas.Labels
 import SkNet.Lemmas.Sort
 import SkNet.Lemmas.CutExact
+import SkNet.Lemmas.Aggregate
 
 namespace SkNet.C08
 open SkNet SkNet.Dendro SkNet.Cut
@@ -372,5 +373,59 @@ example : (cutStraight (α := Nat) [⟨0, 1, 5, 2⟩, ⟨2, 3, 1, 3⟩] (some 2)
     = some [0, 1, 2] := by decide
 
 end straight
+
+
+/-! ### aggregate_dendrogram -/
+
+/-- **aggregate_dendrogram** (`aggregate_valid`): for a valid dendrogram over `n` leaves and `1 ≤ n_clusters ≤ n`, the
+    function returns (never raises), the aggregated dendrogram keeps the heights of the last `n_clusters - 1` merges
+    and is a valid dendrogram over `n_clusters` leaves weighted by `w`, where `w` — the counts returned with
+    `return_counts=True` — are the sizes of the subtrees the new leaves stand for, and sum to `n`.
+    (False on the pinned tree: F5, repaired.) -/
+theorem aggregate_valid {D : Dendro α} {n k : Nat} (hv : ValidDendro n D = true) (hk1 : 1 ≤ k) (hkn : k ≤ n)
+    (cnt : Bool) :
+    ∃ out w, aggregateDendrogram D k cnt = .ok out ∧ w.length = k ∧ w.sum = n ∧
+      ValidDendroW w out.dendro = true ∧
+      out.dendro.map (·.h) = (D.drop (n - k)).map (·.h) ∧ (cnt = true → out.counts = some w) := by
+  by_cases hk2 : 2 ≤ k
+  · exact aggregate_ge2 hv hk2 hkn cnt
+  · have hk : k = 1 := by omega
+    subst hk
+    have hlen := valid_length hv
+    have hdrop : D.drop (D.length + 1 - 1) = [] := by simp
+    have hcount : countOf D (D.length + 1) (2 * (D.length + 1) - 2) = .ok n := by
+      unfold countOf
+      rcases List.eq_nil_or_concat D with hD | ⟨pre, r, hD⟩
+      · subst hD
+        have : n = 1 := by simpa using hlen.symm
+        simp [this]
+      · rw [List.concat_eq_append] at hD
+        subst hD
+        have hl : (pre ++ [r]).length = pre.length + 1 := by simp
+        have e1 : ¬ (2 * ((pre ++ [r]).length + 1) - 2 < (pre ++ [r]).length + 1) := by rw [hl]; omega
+        rw [if_neg e1]
+        have e2 : 2 * ((pre ++ [r]).length + 1) - 2 - ((pre ++ [r]).length + 1) = pre.length := by rw [hl]; omega
+        rw [e2, List.getElem?_append_right (Nat.le_refl _)]
+        simp only [Nat.sub_self, List.getElem?_cons_zero]
+        rw [valid_last_size hv]
+    refine ⟨{ dendro := [], counts := if cnt then some [n] else none }, [n], ?_, rfl, by simp,
+      by simp [ValidDendroW, validLoop], ?_, ?_⟩
+    · unfold aggregateDendrogram
+      have e1 : ¬ (1 > D.length + 1) := by omega
+      simp only [bind, Except.bind, throw, throwThe, MonadExceptOf.throw, e1, if_false, pure, Except.pure,
+        Nat.lt_irrefl, hdrop, List.map_nil, List.append_nil]
+      cases cnt with
+      | false => simp
+      | true =>
+        simp only [if_true, List.mapM_cons, List.mapM_nil, hcount, bind, Except.bind, pure, Except.pure]
+    · have : n - 1 = D.length := by omega
+      simp [this]
+    · intro hc; simp [hc]
+
+/-- non-vacuity, and the witness of the repaired defect F5: 5 leaves aggregated to 3 clusters, one of which is an
+    original leaf -/
+example : ValidDendro 5 ([⟨0, 1, 1, 2⟩, ⟨2, 3, 2, 2⟩, ⟨4, 5, 3, 3⟩, ⟨6, 7, 4, 5⟩] : Dendro Nat) = true ∧
+    (aggregateDendrogram ([⟨0, 1, 1, 2⟩, ⟨2, 3, 2, 2⟩, ⟨4, 5, 3, 3⟩, ⟨6, 7, 4, 5⟩] : Dendro Nat) 3 true).toOption.map
+      (fun o => (o.dendro, o.counts)) = some ([⟨0, 1, 3, 3⟩, ⟨2, 3, 4, 5⟩], some [1, 2, 2]) := by decide
 
 end SkNet.C08
